@@ -6,7 +6,7 @@
    FromListing rebuilds the program the listing denotes; a faithful and complete listing
    denotes exactly the program an independent reader decodes from the file, and numbers its
    constants, globals and instructions 0, 1, 2, ... without gaps.
-   Input (env LISTS): ndjson of [id, bytes, lexed, listing]; the driver only splits the text
+   Input (env LISTS): ndjson of [id, bytes, lexed, listing, nolisting (no listing was produced at all)]; the driver only splits the text
    into these tokens (lexed = FALSE when a line did not have the shape of any entry).        *)
 EXTENDS FMLBytecode, TLC, Json, IOUtils
 VARIABLES t, verdict
@@ -41,6 +41,7 @@ Judge(r) ==
   LET P == Decode(r.bytes) IN
   IF ~P.ok THEN "undecodable-file"
   ELSE IF ~NoRawBreaks(P) THEN "out-of-scope"
+  ELSE IF r.nolisting THEN (IF Load(P).loadable THEN "no-listing-for-a-file-the-loader-must-accept" ELSE "out-of-scope")   \* (the loader needs every label operand to be a string)
   ELSE IF ~r.lexed THEN "line-of-unknown-shape"
   ELSE IF ~ListingOK(r.listing) THEN "numbering-or-mnemonic"
   ELSE IF ~CodeCovered(r.listing) THEN "instruction-outside-every-method"
